@@ -82,9 +82,11 @@ def classify(rc, out, err):
         m = re.search(r"panicked at ([^\n]*)\n?([^\n]*)", err)
         where = m.group(1) if m else ""
         r.msg = ((m.group(1) + " " + m.group(2)) if m else err[-300:]).strip()
-        if "stack overflow" in err or rc in (134, 139, -6, -11):
+        if "compiler/src" in where or "compiler\\src" in where:
+            r.verdict = "compiler-panic"
+        elif "overflowed its stack" in err or "stack overflow" in err:
             r.verdict = "panic"
-            r.msg = r.msg or "stack overflow"
+            r.msg = "stack overflow"
         elif "compiler/src" in where or "compiler\\src" in where or ("src/main.rs" in where and "bytecode" not in where and not out):
             r.verdict = "compiler-panic"
         else:
@@ -126,7 +128,7 @@ ALLOWED = [
     ("index-out-of-range", re.compile(r"index \d+ out of bounds|out of bounds|key error: map does not have key|removal index|cannot remove|index.*is out of")),
     ("division-by-zero", re.compile(r"[/%] by 0|divide by zero|division by zero|remainder with a divisor of zero")),
     ("overflow-or-conversion", re.compile(r"overflow|underflow|out of range integral type conversion|new size is too large|"
-                                          r"cannot be represented|too large|too big|does not fit|invalid digit|radix|capacity")),
+                                          r"cannot be represented|cannot be made into|too large|too big|does not fit|invalid digit|radix|capacity|is not a valid|not in the range")),
     ("stack-exhaustion", re.compile(r"stack overflow|Stack overflow|recursion|call stack")),
 ]
 
@@ -135,7 +137,7 @@ def failure_class(res):
     """(allowed?, class).  Anything that is not one of the language's own dynamic failures is a type-error-like
     failure: the class is the message with names and numbers masked, so it is stable across runs."""
     msg = res.msg or ""
-    if res.verdict == "panic" and ("stack overflow" in res.stderr or res.rc in (134, 139, -6, -11)):
+    if res.verdict == "panic" and ("stack overflow" in res.stderr or "overflowed its stack" in res.stderr):
         return True, "stack-exhaustion"
     for name, rx in ALLOWED:
         if rx.search(msg):
